@@ -7,6 +7,7 @@ expression or macro is ever skipped silently.  The only constructs dropped on pu
 function's summary (`dropped`).
 """
 import json
+import re
 from rsparse import RsError, FileIndex, Parser, Tok, lex, split_macro_args, INT_SUFFIXES
 
 UMAX = {"u8": "Rs.U8_MAX", "u16": "Rs.U16_MAX", "u32": "Rs.U32_MAX", "u64": "Rs.U64_MAX", "u128": "Rs.U128_MAX",
@@ -21,6 +22,21 @@ protected partial unsafe macro syntax notation infix return for break continue t
 calc Type Prop Sort abbrev example axiom opaque set_option attribute""".split())
 
 INTLIT = ("intlit",)
+
+
+class LazyTy(object):
+    """Lean type of a declared external, printed when the unit is emitted: a struct type mentions the structure's type
+    parameters, which are only final once every function of the unit is translated"""
+    def __init__(self, unit, arg_tys, ret_ty, ret_wrap):
+        self.u, self.arg_tys, self.ret_ty, self.ret_wrap = unit, tuple(arg_tys), ret_ty, ret_wrap
+    def key(self): return (self.arg_tys, self.ret_ty, self.ret_wrap)
+    def __eq__(self, o): return isinstance(o, LazyTy) and self.key() == o.key()
+    def __hash__(self): return hash(repr(self.key()))
+    def __str__(self):
+        r = self.u.lt(self.ret_ty, False)
+        if self.ret_wrap: r = "(%s %s)" % (self.ret_wrap, r)
+        return " → ".join([self.u.lt(t, False) for t in self.arg_tys] + [r])
+    def __repr__(self): return str(self)
 UNIT = ("unit",)
 BOOL = ("bool",)
 
@@ -433,6 +449,7 @@ class FnTranslator:
         self.impl = f["impl"]
         self.n = 0
         self.exts = []       # external function parameters: (lean name, lean type string)
+        self.ext_opaques = []  # opaque types that occur only in the types of externals (become type parameters)
         self.dropped = []
         self.needs_deq = []
         self.local_consts = {}
@@ -442,9 +459,11 @@ class FnTranslator:
         self.n += 1
         return "%s_%d" % (base, self.n)
 
-    def add_ext(self, name, ty):
+    def add_ext(self, name, ty, ops=()):
         if (name, ty) not in self.exts:
             self.exts.append((name, ty))
+        for o in ops:
+            if o not in self.ext_opaques: self.ext_opaques.append(o)
 
     # ---- entry
     def run(self):
@@ -513,6 +532,7 @@ class FnTranslator:
         info.returns_guard = "MutexGuard" in repr(f["ret"]) or "RefMut" in repr(f["ret"])
         info.monadic = self.is_result or monadic(ir)
         info.exts = self.exts
+        info.ext_opaques = self.ext_opaques
         info.ir = ir
         info.dropped = self.dropped
         info.needs_deq = self.needs_deq
@@ -575,6 +595,7 @@ class FnTranslator:
         calls = []
         def f3(e):
             if e and e[0] == "mcall" and e[1] == ("path", ["self"]) and (self.impl, e[2]) in self.u.fi.fns \
+                    and ("self." + e[2]) not in self.u.externals \
                     and (self.impl, e[2]) not in self.u.fi.decl_only: calls.append(e[2])
         walk(blk, f3)
         for m in calls:
@@ -639,7 +660,7 @@ class FnTranslator:
             if info.mut_self and info.is_result and self.selfk == "mut" and info.val_ty == self.val_ty:
                 pre = []
                 a = self.args_for(info, e[4], env, pre)
-                for x in info.exts: self.add_ext(*x)
+                for x in info.exts: self.add_ext(*x, ops=getattr(info, 'ext_opaques', ()))
                 self.callees.append(info.lean_name)
                 return self.wrap(pre, MCall(" ".join([info.lean_name] + [n for n, _ in info.exts] + ["self"] + a)))
         if e[0] in ("call", "mcall"):
@@ -859,6 +880,8 @@ class FnTranslator:
                 return self.wrap(pre, self.stmts(rest, tail, env2, fin))
             if e[0] in ("if", "iflet", "match") and self.has_jump(e):
                 raise RsError("return inside a let initialiser (line %d)" % line)
+            if ty is None and pat[0] == "pvar" and self.lit_only(e) and e[0] != "int":
+                return self.let_inferred(pat, e, env, rest, tail, fin, line)    # e.g. `let mut min = 1 << 48;`
             pre = []
             self.last_guard = False
             term, t = self.expr(e, env, pre, want)
@@ -868,7 +891,10 @@ class FnTranslator:
             if want is not None:
                 self.check_ty(t, want, "let at line %d" % line)
                 if "unknown" not in repr(want): t = want
-            if t == INTLIT: raise RsError("integer literal without a type (line %d)" % line)
+            if t == INTLIT:
+                if pat[0] != "pvar" or ty is not None:
+                    raise RsError("integer literal without a type (line %d)" % line)
+                return self.let_inferred(pat, e, env, rest, tail, fin, line)
             env2 = dict(env)
             lp = self.bind_pat(pat, t, env2)
             # rename the last temporary instead of an extra let
@@ -900,6 +926,54 @@ class FnTranslator:
             e = st[1]
             return self.stmt_expr(e, rest, tail, env, fin)
         raise RsError("statement outside the subset: %s" % k)
+
+    def snap_state(self):
+        """copy of the mutable translation state (for trial translations that may fail)"""
+        import copy
+        st = {k: copy.copy(v) for k, v in self.__dict__.items()
+              if isinstance(v, (list, dict, set, int, str, tuple, bool, type(None)))}
+        return (st, copy.deepcopy(self.u.used_fields))
+
+    def restore_state(self, s):
+        import copy
+        for k, v in s[0].items():
+            setattr(self, k, copy.copy(v))
+        self.u.used_fields.clear(); self.u.used_fields.update(copy.deepcopy(s[1]))
+
+    def lit_only(self, e):
+        """an expression made of unsuffixed integer literals and arithmetic/shift operators only"""
+        if e[0] == "paren": return self.lit_only(e[1])
+        if e[0] == "int": return not e[2]
+        if e[0] == "binary" and e[1] in ("+", "-", "*", "<<", ">>", "&", "|", "^"): return self.lit_only(e[2]) and self.lit_only(e[3])
+        return False
+
+    def let_inferred(self, pat, e, env, rest, tail, fin, line):
+        """`let x = <expression made of untyped integer literals>;` without annotation: the type is the one rustc
+        infers from the later uses of `x`.  The rest of the function is type-checked with `x : T` for every unsigned
+        integer type T (operands of a binary operation / arguments must have equal types here as in Rust); the
+        translation is accepted only if exactly ONE T type-checks (fail closed otherwise, e.g. when `x` is only
+        cast, where rustc would default to i32)."""
+        snap, restore = self.snap_state, self.restore_state
+        s0 = snap()
+        good = []
+        for cand in ("u64", "u32", "usize", "u16", "u8", "u128"):
+            t = ("int", cand)
+            try:
+                pre = []
+                term, t2 = self.expr(e, env, pre, t)
+                self.check_ty(t2, t, "let at line %d" % line)
+                env2 = dict(env)
+                lp = self.bind_pat(pat, t, env2)
+                pre.append(("let", lp, term))
+                ir = self.wrap(pre, self.stmts(rest, tail, env2, fin))
+                good.append((cand, ir, snap()))
+            except RsError:
+                pass
+            restore(s0)
+        if len(good) != 1:
+            raise RsError("integer literal without a type (line %d): %d unsigned types fit the later uses" % (line, len(good)))
+        restore(good[0][2])
+        return good[0][1]
 
     def bind_pat(self, pat, t, env):
         """Lean pattern text for a Rust irrefutable pattern; extends env"""
@@ -1197,7 +1271,7 @@ class FnTranslator:
     # ---- macros
     def macro_stmt(self, e, env, pre):
         name, toks, line = e[1], e[2], e[3]
-        if name in LOG_MACROS:
+        if name in LOG_MACROS or name in getattr(self.u, "log_macros", ()):
             self.dropped.append("%s! at line %d (logging: arguments not evaluated)" % (name, line))
             return
         if name in ("assert", "debug_assert"):
@@ -1213,7 +1287,10 @@ class FnTranslator:
             return
         if name == "policy_err":
             a = split_macro_args(toks, self.u.rel)
-            if a[0] != ("path", ["self"]): raise RsError("policy_err! on something else than self")
+            # receiver: `self`, or a local bound to a declared-and-dropped external such as `self.validator()` (its value
+            # is `()`: whichever validator it is, its policy filter is the external `policy_filter_err`)
+            via_local = a[0][0] == "path" and len(a[0][1]) == 1 and env.get(a[0][1][0]) == UNIT
+            if a[0] != ("path", ["self"]) and not via_local: raise RsError("policy_err! on something else than self")
             if not (self.trait_self or "self" in env): raise RsError("policy_err! without self")
             tag, t = self.expr(a[1], env, pre, ("str",))
             self.check_ty(t, ("str",), "policy_err! tag")
@@ -1271,6 +1348,13 @@ class FnTranslator:
 
     def assign(self, e, env, pre):
         _, op, l, r = e
+        try:
+            root = self.place_root(l)
+        except RsError:
+            root = None
+        if root is not None and env.get(root) == UNIT and getattr(self.u, "log_macros", ()):
+            self.dropped.append("assignment through the logging guard `%s` (value `()`)" % root)
+            return env
         lt_term, lty = self.place_get(l, env, []) if op != "=" or True else (None, None)
         if op == "=":
             term, t = self.expr(r, env, pre, lty)
@@ -1348,6 +1432,33 @@ class FnTranslator:
         return env
 
     def for_stmt(self, e, env, cont, ctx=None):
+        """`for x in <lit>..<lit>` (both bounds unsuffixed literals): the type of `x` is the one rustc infers from its
+        uses; the loop (and what follows it) is type-checked with every unsigned type, exactly one must fit."""
+        it = e[2]
+        while it[0] == "paren": it = it[1]
+        if it[0] == "range" and it[1] is not None and it[2] is not None and it[1][0] == "int" and not it[1][2] \
+                and it[2][0] == "int" and not it[2][2] and getattr(self, "_range_force", None) is None:
+            s0 = self.snap_state()
+            good = []
+            for cand in ("u64", "u32", "usize", "u16", "u8", "u128"):
+                self._range_force = (id(it), ("int", cand))
+                try:
+                    ir = self.for_stmt_inner(e, env, cont, ctx)
+                    self._range_force = None
+                    good.append((cand, ir, self.snap_state()))
+                except RsError:
+                    pass
+                self._range_force = None
+                self.restore_state(s0)
+                self._range_force = None
+            if len(good) != 1:
+                raise RsError("range over untyped literals: %d unsigned types fit the uses of the loop variable" % len(good))
+            self.restore_state(good[0][2])
+            self._range_force = None
+            return good[0][1]
+        return self.for_stmt_inner(e, env, cont, ctx)
+
+    def for_stmt_inner(self, e, env, cont, ctx=None):
         _, pat, it, body = e
         ctx = ctx or {}
         if self.has_try(body) and not self.is_result:
@@ -1514,6 +1625,12 @@ class FnTranslator:
         """(Lean list term, element type) of an iterable expression"""
         if it[0] == "paren": return self.iter_expr(it[1], env, pre)
         if it[0] == "range":
+            rf = getattr(self, "_range_force", None)
+            if rf is not None and rf[0] == id(it):
+                a, _ = self.expr(it[1], env, pre, rf[1])
+                b, _ = self.expr(it[2], env, pre, rf[1])
+                if it[3]: raise RsError("inclusive range is outside the subset")
+                return "(Rs.range %s %s)" % (a, b), rf[1]
             a, at = self.expr(it[1], env, pre, None) if it[1][0] != "int" else (None, INTLIT)
             b, bt = self.expr(it[2], env, pre, None if at == INTLIT else at)
             if it[1][0] == "int":
@@ -1654,6 +1771,10 @@ class FnTranslator:
                 v = self.fresh()
                 pre.append(("bind", v, MCall("(Rs.panic : Rs.M %s)" % self.u.lt(want, False))))
                 return v, want
+            if e[1] in getattr(self.u, "log_macros", ()):
+                # declared logging-only macro used as a value (a guard object that only logs when dropped): `()`
+                self.dropped.append("%s! at line %d (declared logging-only: value `()`)" % (e[1], e[3]))
+                return "()", UNIT
             raise RsError("macro %s! in expression position is outside the subset" % e[1])
         if k == "struct": return self.struct_lit(e, env, pre)
         if k == "closure": raise RsError("closure outside a supported method argument")
@@ -1919,6 +2040,16 @@ class FnTranslator:
             v = self.fresh()
             pre.append(("bind", v, MCall("Rs.okOr %s %s" % (o, tag))))
             return v, ot[1]
+        if x[0] == "mcall" and x[2] == "map_err" and len(x[4]) == 1 and x[4][0][0] == "closure" and len(x[4][0][1]) == 1:
+            # `.map_err(|ve| ve.prepend_msg(..))?`: `prepend_msg` keeps the tag of a ValidationError, only the message changes
+            c = x[4][0]
+            body = c[2]
+            if body[0] == "block" and not body[1]: body = body[2]
+            pv = c[1][0]
+            pname = pv[1] if isinstance(pv, tuple) and pv[0] == "pvar" else (pv[0][1] if isinstance(pv, tuple) and isinstance(pv[0], tuple) and pv[0][0] == "pvar" else None)
+            if body is not None and body[0] == "mcall" and body[2] == "prepend_msg" and body[1] == ("path", [pname]):
+                self.dropped.append("map_err(prepend_msg): message only, the tag is kept")
+                return self.try_(("try", x[1]), env, pre, want)
         if x[0] in ("call", "mcall"):
             r = self.call_any(x, env, pre, want_result=True)
             if r[2] == "comp":
@@ -1965,7 +2096,7 @@ class FnTranslator:
     def call_translated(self, info, args_terms, env, pre, self_term=None):
         if getattr(info, "returns_guard", False): self.last_guard = True
         if getattr(info, "mut_params", None): raise RsError("call of a function with &mut parameters is outside the subset")
-        for x in info.exts: self.add_ext(*x)
+        for x in info.exts: self.add_ext(*x, ops=getattr(info, 'ext_opaques', ()))
         for o in info.needs_deq:
             if o not in self.needs_deq: self.needs_deq.append(o)
         self.callees.append(info.lean_name)
@@ -2076,6 +2207,8 @@ class FnTranslator:
         if segs == ["Vec", "new"] and not args:
             if want is not None and want[0] == "vec": return "[]", want, "val"
             return "[]", ("vec", ("unknown",)), "val"
+        if len(segs) >= 2 and "::".join(segs) in self.u.externals:
+            return self.call_external("::".join(segs), args, env, pre)      # declared external `Type::function`
         if len(segs) == 2 and segs[0] in ("Vec", "VecDeque", "BTreeMap", "HashMap", "BTreeSet", "HashSet", "OrderedMap",
                                           "UnorderedMap", "OrderedSet", "UnorderedSet", "Map") and name in ("new", "with_capacity", "default"):
             for x in args:
@@ -2140,34 +2273,65 @@ class FnTranslator:
             return self.call_translated(info, a, env, pre)
         raise RsError("call of unknown function %s (not in this file, not declared external)" % "::".join(segs))
 
-    def call_external(self, name, args, env, pre, first=None):
+    def call_external(self, name, args, env, pre, recv=None, field_style=False):
+        """call of a function declared under `externals` in the target list.  `name` is the plain name of a free
+        function, `Type::function` for an associated function, `self.method` for a method of the translated impl that
+        is itself outside the subset (the receiver is NOT passed: the external stands for the method of this one
+        `self`), or `OpaqueType.method` for a method of a value of an opaque type (`recv` = (term, type), passed as
+        the first argument).  A declared `Result<T, E>` is read as `Option<T>` (`Err(_)` -> `none`; only `.unwrap()`,
+        `.ok()`, `.is_ok()`, `.is_err()`, `.unwrap_or(d)` are available on it).  `"drop": True`: the call is not
+        evaluated at all and yields `()` (for a value that is only the receiver of `policy_err!`).  `"monadic": True` on a
+        declared `Result<T, E>`: the external has type `… → Rs.M T` (its `Err(e)` is a failure with the policy tag of `e`)
+        and can be used with `?`; `"partial": True` on any other type: `… → Rs.M T` (it may panic or overflow), bound
+        where it is called.  `StructType.method` (a struct imported from another file): receiver passed, as for opaque
+        types.  External types are printed when the unit is emitted (`LazyTy`).
+        `field.method` (`field_style`): a method of a (generic / foreign) field of `self`, `self.local.get(k)`: the field's
+        value is passed as the receiver and a declared `Result` is monadic unless `"monadic": false`."""
         spec = self.u.externals[name]
+        if spec.get("drop"):
+            if args: raise RsError("dropped external %s with arguments" % name)
+            self.dropped.append("%s() (declared: only used as the receiver of policy_err!)" % name)
+            return "()", UNIT, "val"
         pts = [self.u.parse_type(s, self.impl) for s in spec["params"]]
         rt = self.u.parse_type(spec["ret"], self.impl)
         if len(pts) != len(args): raise RsError("external %s arity" % name)
-        terms = []
-        if first is not None:
-            # a method of a field: the field's value is the first argument (the external is a pure function of it:
-            # only read-only methods may be declared this way)
-            terms.append(self.paren(first[0])); pts = [first[1]] + pts; args = [None] + list(args)
+        terms, atys = [], []
+        if recv is not None:
+            terms.append(recv[0] if " " not in recv[0] or recv[0].startswith("(") else "(" + recv[0] + ")")
+            atys.append(recv[1])
         for a, pt in zip(args, pts):
-            if a is None: continue
             term, t = self.expr(a, env, pre, pt)
             self.check_ty(t, pt, "argument of external %s" % name)
             terms.append(term if " " not in term or term.startswith("(") else "(" + term + ")")
-        lname = "ext_" + name.replace(".", "_").replace("::", "_")
-        if rt[0] == "result":
-            # a Result-returning external: a computation of the outcome monad (only `?` / tail position use it)
-            lty = " → ".join([self.u.lt(t, False) for t in pts] + ["Rs.M " + self.u.lt(rt[1], False)])
-            self.add_ext(lname, lty)
-            return ("%s %s" % (lname, " ".join(terms))).rstrip(), rt[1], "comp"
-        lty = " → ".join([self.u.lt(t, False) for t in pts] + [self.u.lt(rt, False)])
-        self.add_ext(lname, lty)
-        if not terms: return lname, rt, "val"
-        return "(%s %s)" % (lname, " ".join(terms)), rt, "val"
+        monadic_ext = rt[0] == "result" and (spec.get("monadic") or (field_style and spec.get("monadic") is not False))
+        partial_ext = rt[0] != "result" and spec.get("partial")
+        if monadic_ext:
+            lty = LazyTy(self.u, atys + pts, rt[1], "Rs.M")      # `Err(e)` = a failure carrying the policy tag of `e`
+        elif partial_ext:
+            lty = LazyTy(self.u, atys + pts, rt, "Rs.M")         # a function that may panic / overflow
+        elif rt[0] == "result":
+            rt = ("tryres", rt[1])
+            lty = LazyTy(self.u, atys + pts, rt[1], "Option")
+        else:
+            lty = LazyTy(self.u, atys + pts, rt, None)
+        ident = "ext_" + re.sub(r"\W+", "_", name)
+        ops = []
+        for t in ([recv[1]] if recv is not None else []) + pts + [rt if rt[0] not in ("tryres", "result") else rt[1]]:
+            self.u.opaques_of(t, ops)
+        self.add_ext(ident, lty, ops)
+        if monadic_ext:
+            return ("%s %s" % (ident, " ".join(terms))).strip(), rt[1], "comp"
+        if partial_ext:
+            v = self.fresh()
+            pre.append(("bind", v, MCall(("%s %s" % (ident, " ".join(terms))).strip())))
+            return v, rt, "val"
+        if not terms: return ident, rt, "val"
+        return "(%s %s)" % (ident, " ".join(terms)), rt, "val"
 
     def mcall(self, e, env, pre, want):
         _, recv, m, turbo, args, line = e
+        if recv == ("path", ["self"]) and ("self." + m) in self.u.externals:
+            return self.call_external("self." + m, args, env, pre)
         # methods of the translated impl on self
         if recv == ("path", ["self"]) and self.impl and (self.impl, m) in self.u.fi.fns and m not in ("clone",) \
                 and (self.impl, m) not in self.u.fi.decl_only:
@@ -2181,7 +2345,7 @@ class FnTranslator:
                 if info.is_result:
                     v = self.fresh("r")
                     call = " ".join([info.lean_name] + [n for n, _ in info.exts] + ["self"] + a)
-                    for x in info.exts: self.add_ext(*x)
+                    for x in info.exts: self.add_ext(*x, ops=getattr(info, 'ext_opaques', ()))
                     self.callees.append(info.lean_name)
                     if not self.is_result: raise RsError("Result method called outside a Result function")
                     if not getattr(self, "want_result", False):
@@ -2200,7 +2364,7 @@ class FnTranslator:
         if recv[0] == "field" and recv[1] == ("path", ["self"]) and ("%s.%s" % (recv[2], m)) in self.u.externals:
             # method of a (generic / foreign) field declared external in the target list: `self.local.get(k)`
             ft, fty = self.expr(recv, env, pre, None)
-            return self.call_external("%s.%s" % (recv[2], m), args, env, pre, first=(ft, fty))
+            return self.call_external("%s.%s" % (recv[2], m), args, env, pre, recv=(ft, fty), field_style=True)
         if recv == ("path", ["self"]) and self.trait_self and (self.impl, m) in self.u.fi.decl_only:
             return self.decl_external(self.impl, m, args, env, pre)
         if recv[0] == "path" and len(recv[1]) == 1 and recv[1][0] not in env and recv[1][0] != "self":
@@ -2275,6 +2439,8 @@ class FnTranslator:
         if k == "map" and bt[1] == ("str",) and m == "contains_key" and len(args) == 1:
             kk, kt = self.expr(args[0], env, pre, ("str",)); self.check_ty(kt, ("str",), "map key")
             return "(Rs.smapGet %s %s).isSome" % (base, kk), BOOL, "val"
+        if k in ("opaque", "struct") and (bt[1] + "." + m) in self.u.externals:
+            return self.call_external(bt[1] + "." + m, args, env, pre, recv=(base, bt))
         if k in ("map", "umap"):
             g, _, _ = self.map_fns(bt, m in ("get", "contains_key"))
             if m in ("get", "contains_key") and len(args) == 1:
@@ -2582,6 +2748,8 @@ def fn_lean_lines(info):
     ops = []
     for _, t in info.params: u.opaques_of(t, ops)
     u.opaques_of(info.out_ty, ops)
+    for o in getattr(info, "ext_opaques", ()):
+        if o not in ops: ops.append(o)
     sig = ""
     if ops: sig += " {%s : Type}" % " ".join(ops)
     for o in info.needs_deq: sig += " [DecidableEq %s]" % o
